@@ -494,7 +494,7 @@ func (vc *VC) load(pv SV, t types.Type, st *State, reach string, pos token.Pos) 
 			}
 			return getPath(cell, p.Path)
 		case "elem":
-			v := vc.readElem(st, *p.Sl, p.Idx)
+			v := getPath(vc.readElem(st, *p.Sl, p.Idx), p.Path)
 			vc.assumeType(reach, t, v, st)
 			return v
 		case "heap":
@@ -564,6 +564,9 @@ func (vc *VC) store(pv SV, v SV, st *State, reach string, pos token.Pos) {
 			vc.eng.note("store to package-level variable in " + vc.key)
 		}
 	case "elem":
+		if len(p.Path) > 0 {
+			v = setPath(vc.readElem(st, *p.Sl, p.Idx), p.Path, v)
+		}
 		vc.writeElem(st, *p.Sl, p.Idx, v)
 	case "heap":
 		vc.nilCheck(p, reach, pos)
@@ -585,9 +588,6 @@ func (vc *VC) fieldAddr(x *ssa.FieldAddr, st *State, reach string) SV {
 	if p.Kind == "heap" {
 		vc.nilCheck(p, reach, x.Pos())
 	}
-	if p.Kind == "elem" {
-		panic(unsupported("address of a field of a slice element"))
-	}
 	return np
 }
 
@@ -602,8 +602,16 @@ func (vc *VC) indexAddr(x *ssa.IndexAddr, st *State, reach string) SV {
 		sc := s
 		return Pt{Kind: "elem", Sl: &sc, Idx: idx, Elem: s.Elem}
 	case Pt:
-		// pointer to array held in a local
-		panic(unsupported("IndexAddr on pointer to local array"))
+		// pointer to a fixed-size array held in a local / heap struct: constant indices only
+		if arr, ok := s.Elem.Underlying().(*types.Array); ok && arr.Len() <= 8 {
+			if k, isNum := parseIntVal(idx); isNum && k >= 0 && k < arr.Len() {
+				np := s
+				np.Path = append(append([]int(nil), s.Path...), int(k))
+				np.Elem = arr.Elem()
+				return np
+			}
+		}
+		panic(unsupported("IndexAddr on pointer to array with a non-constant index"))
 	}
 	panic(unsupported("IndexAddr base"))
 }
